@@ -191,6 +191,10 @@ class Program:
 
                 n0 = len(self.norm_report)
                 if self.unknown_functions:
+                    from . import ctxinline
+
+                    for rel in ctxinline.inline_context_managers(trees, self.unknown_functions, self.norm_report):
+                        canonicalise(trees[rel])
                     inline.inline_unknown(trees, self.unknown_functions, self.norm_report)
                 for _round in range(3):
                     n1 = len(self.norm_report)
